@@ -1,4 +1,5 @@
 import Pdpy11.Model.Shunt
+import Pdpy11.Model.ShuntP
 import Pdpy11.Model.Ops
 import Pdpy11.Model.Eval
 import Mathlib.Data.Int.Bitwise
@@ -398,3 +399,169 @@ example : render (shunt 1 [(⟨3, 4, true⟩, 2), (⟨0, 3, true⟩, 3), (⟨4, 
 
 
 end Pdpy11.Props.C05
+
+/-! ## prefix operators in front of the first operand (Model.ShuntP) -/
+
+namespace Pdpy11.Props.C05.Prefix
+open Pdpy11.Model.Shunt (Op Tree)
+open Pdpy11.Model.ShuntP
+open Pdpy11.Model
+
+/-- a tree of the infix-only model, with its leftmost operand replaced by `L` -/
+def substL (L : PTree) : Tree → PTree
+  | .atom _ => L
+  | .node o l r => .node o (substL L l) (embed r)
+where embed : Tree → PTree
+  | .atom n => .atom n
+  | .node o l r => .node o (embed l) (embed r)
+
+abbrev embed := substL.embed
+
+@[simp] theorem embed_atom (n : Nat) : embed (.atom n) = .atom n := rfl
+
+/-- prefix operators applied to an operand, outermost first -/
+def wrap : List Op → PTree → PTree
+  | [], t => t
+  | o :: r, t => .pre o (wrap r t)
+
+/-- the stack of the infix-only model inside the stack with entries; the leftmost operand
+lives in the bottom entry -/
+def embedSt (L : PTree) : List (Tree × Op) → List Entry
+  | [] => []
+  | [(l, o)] => [.bin (substL L l) o]
+  | (l, o) :: x :: rest => .bin (embed l) o :: embedSt L (x :: rest)
+
+theorem popWhile_commutes (L : PTree) (p : Nat) (lf : Bool) (e : Tree) (st : List (Tree × Op)) (hne : st ≠ []) :
+    popWhile p lf (embed e) (embedSt L st) =
+      (match (Shunt.popWhile p lf e st).2 with
+       | [] => (substL L (Shunt.popWhile p lf e st).1, [])
+       | x :: r => (embed (Shunt.popWhile p lf e st).1, embedSt L (x :: r))) := by
+  induction st generalizing e with
+  | nil => exact absurd rfl hne
+  | cons hd tl ih =>
+    obtain ⟨l, o⟩ := hd
+    cases tl with
+    | nil =>
+      by_cases hc : o.prec < p ∨ (o.prec = p ∧ lf = true)
+      · simp [embedSt, popWhile, entryOp, Shunt.popWhile, hc, reduce, substL]
+      · simp [embedSt, popWhile, entryOp, Shunt.popWhile, hc]
+    | cons x rest =>
+      by_cases hc : o.prec < p ∨ (o.prec = p ∧ lf = true)
+      · have := ih (.node o l e) (by simp)
+        have he : PTree.node o (embed l) (embed e) = embed (.node o l e) := rfl
+        have lhs : popWhile p lf (embed e) (embedSt L ((l, o) :: x :: rest)) =
+            popWhile p lf (embed (.node o l e)) (embedSt L (x :: rest)) := by
+          simp only [embedSt]
+          rw [popWhile]
+          simp only [entryOp, hc, ↓reduceIte, reduce, he]
+        have rhs : Shunt.popWhile p lf e ((l, o) :: x :: rest) = Shunt.popWhile p lf (.node o l e) (x :: rest) := by
+          rw [Shunt.popWhile]; simp only [hc, ↓reduceIte]
+        rw [lhs, rhs]; exact this
+      · have lhs : popWhile p lf (embed e) (embedSt L ((l, o) :: x :: rest)) = (embed e, embedSt L ((l, o) :: x :: rest)) := by
+          simp only [embedSt]
+          rw [popWhile]
+          simp only [entryOp, hc, ↓reduceIte]
+        have rhs : Shunt.popWhile p lf e ((l, o) :: x :: rest) = (e, (l, o) :: x :: rest) := by
+          rw [Shunt.popWhile]; simp only [hc, ↓reduceIte]
+        rw [lhs, rhs]
+
+theorem popAll_commutes (L : PTree) (e : Tree) (st : List (Tree × Op)) (hne : st ≠ []) :
+    popAll (embed e) (embedSt L st) = substL L (Shunt.popAll e st) := by
+  induction st generalizing e with
+  | nil => exact absurd rfl hne
+  | cons hd tl ih =>
+    obtain ⟨l, o⟩ := hd
+    cases tl with
+    | nil => simp [embedSt, popAll, reduce, Shunt.popAll, substL]
+    | cons x rest =>
+      simp only [embedSt, popAll, reduce, Shunt.popAll]
+      have he : PTree.node o (embed l) (embed e) = embed (.node o l e) := rfl
+      rw [he]; exact ih _ (by simp)
+
+/-- with a non-empty stack the two loops run in step -/
+theorem shuntAux_commutes (L : PTree) (e : Tree) (st : List (Tree × Op)) (hne : st ≠ []) (rest : List (Op × Nat)) :
+    shuntAux (embed e) (embedSt L st) rest = substL L (Shunt.shuntAux e st rest) := by
+  induction rest generalizing e st with
+  | nil => simp only [shuntAux, Shunt.shuntAux]; exact popAll_commutes L e st hne
+  | cons hd tl ih =>
+    obtain ⟨o, n⟩ := hd
+    simp only [shuntAux, Shunt.shuntAux]
+    rw [popWhile_commutes L o.prec o.left e st hne]
+    cases hs : (Shunt.popWhile o.prec o.left e st).2 with
+    | nil =>
+      simp only
+      have := ih (.atom n) [((Shunt.popWhile o.prec o.left e st).1, o)] (by simp)
+      simpa [embedSt] using this
+    | cons x r =>
+      simp only
+      have := ih (.atom n) (((Shunt.popWhile o.prec o.left e st).1, o) :: x :: r) (by simp)
+      simpa [embedSt] using this
+
+/-- prefix operators in stack order (innermost first) applied to an operand -/
+def wrapRev : List Op → PTree → PTree
+  | [], t => t
+  | u :: r, t => wrapRev r (.pre u t)
+
+theorem wrapRev_append (a b : List Op) (t : PTree) : wrapRev (a ++ b) t = wrapRev b (wrapRev a t) := by
+  induction a generalizing t with
+  | nil => rfl
+  | cons u r ih => simp [wrapRev, ih]
+
+theorem wrapRev_reverse (pre : List Op) (t : PTree) : wrapRev pre.reverse t = wrap pre t := by
+  induction pre generalizing t with
+  | nil => rfl
+  | cons o r ih => simp [wrapRev_append, wrapRev, wrap, ih]
+
+theorem popWhile_unsS (p : Nat) (lf : Bool) (e : PTree) (us : List Op) (h : ∀ q ∈ us, q.prec < p) :
+    popWhile p lf e (us.map .un) = (wrapRev us e, []) := by
+  induction us generalizing e with
+  | nil => simp [popWhile, wrapRev]
+  | cons u r ih =>
+    have hl : u.prec < p := h u (by simp)
+    simp only [List.map_cons]
+    rw [popWhile]
+    simp only [entryOp, hl, true_or, ↓reduceIte, reduce]
+    rw [ih (.pre u e) (fun q hq => h q (by simp [hq]))]
+    rfl
+
+theorem popAll_unsS (e : PTree) (us : List Op) : popAll e (us.map .un) = wrapRev us e := by
+  induction us generalizing e with
+  | nil => simp [popAll, wrapRev]
+  | cons u r ih => simp only [List.map_cons, popAll, reduce, ih, wrapRev]
+
+theorem popWhile_uns (p : Nat) (lf : Bool) (e : PTree) (pre : List Op) (h : ∀ q ∈ pre, q.prec < p) :
+    popWhile p lf e (pre.reverse.map .un) = (wrap pre e, []) := by
+  rw [popWhile_unsS p lf e pre.reverse (fun q hq => h q (by simpa using hq)), wrapRev_reverse]
+
+theorem popAll_uns (e : PTree) (pre : List Op) : popAll e (pre.reverse.map .un) = wrap pre e := by
+  rw [popAll_unsS, wrapRev_reverse]
+
+/-- **prefix operators bind tighter than every infix operator**: when each prefix operator has
+a smaller precedence number than each infix operator of the chain (pdpy11's table: 2 against
+3-10), the tree of `- ~ a * b + c …` is the tree of `a * b + c …` with `a` replaced by
+`-(~a)` — for chains of any length -/
+theorem prefix_binds_tightest (pre : List Op) (n : Nat) (rest : List (Op × Nat))
+    (h : ∀ q ∈ pre, ∀ x ∈ rest, q.prec < x.1.prec) :
+    shuntP pre n rest = substL (wrap pre (.atom n)) (Shunt.shunt n rest) := by
+  unfold shuntP Shunt.shunt
+  cases rest with
+  | nil => simp only [shuntAux, Shunt.shuntAux, Shunt.popAll, substL]; exact popAll_uns _ pre
+  | cons hd tl =>
+    obtain ⟨o, m⟩ := hd
+    simp only [shuntAux, Shunt.shuntAux]
+    rw [popWhile_uns o.prec o.left (.atom n) pre (fun q hq => h q hq (o, m) (by simp))]
+    simp only [Shunt.popWhile]
+    have := shuntAux_commutes (wrap pre (.atom n)) (.atom m) [(.atom n, o)] (by simp) tl
+    simpa [embedSt, substL] using this
+
+/-- the regenerated table meets the hypothesis: the value prefix operators `+ - ~ ^C` have a
+smaller precedence number than every infix value operator -/
+theorem table_meets_prefix_hypothesis :
+    (Pdpy11.Gen.operators.filter (fun o => o.kind == .prefix && o.prec < 10)).all (fun p =>
+      (Pdpy11.Gen.operators.filter (fun o => o.kind == .infix && o.fname != "call")).all (fun i => decide (p.prec < i.prec))) = true := by
+  decide
+
+example : shuntP [⟨14, 2, true⟩, ⟨15, 2, true⟩] 7 [(⟨0, 3, true⟩, 8), (⟨3, 4, true⟩, 9)] =
+    .node ⟨3, 4, true⟩ (.node ⟨0, 3, true⟩ (.pre ⟨14, 2, true⟩ (.pre ⟨15, 2, true⟩ (.atom 7))) (.atom 8)) (.atom 9) := by decide
+
+end Pdpy11.Props.C05.Prefix
